@@ -144,6 +144,13 @@ TABLE.update({
     "c02_gate_members_not_locked.diff": ("box", "contracts.c02:locked_colors:locked_colors_arg_sets", None),
     "c02_scalar_operand_locked_red.diff": ("box", "contracts.c02:locked_colors:locked_colors_arg_sets", None),
     "c04_feedback_not_locked.diff": ("box", "contracts.c02:locked_colors:locked_colors_arg_sets", None),
+    "c12_populate_ignores_planned_colour.diff": ("box", "contracts.c12:populate:populate_arg_sets", None),
+    "c04_populate_feedback_pair_into_tree.diff": ("box", "contracts.c12:populate:populate_arg_sets", None),
+    "c12_populate_groups_by_signal_only.diff": ("box", "contracts.c12:populate:populate_arg_sets", None),
+    "c01_operand_colour_from_first_member.diff": ("box", "contracts.c02:inject_colors:inject_colors_arg_sets", None),
+    "c01_operand_colour_ignores_graph.diff": ("box", "contracts.c02:inject_colors:inject_colors_arg_sets", None),
+    "c01_condition_row_colour_not_injected.diff": ("box", "contracts.c02:inject_colors:inject_colors_arg_sets", None),
+    "c02_bundle_member_colour_default.diff": ("box", "contracts.c02:inject_colors:inject_colors_arg_sets", None),
     "c04_self_feedback_on_green.diff": ("box", "contracts.c04:self_feedback:self_feedback_arg_sets", None),
     "c04_cleanup_keeps_wires_of_removed_gate.diff": ("box", "contracts.c04:cleanup_gates:cleanup_arg_sets", None),
     "../seeded/C04-1/patch.diff": ("box", "contracts.c04:optimize_feedback:feedback_arg_sets", None),
